@@ -3,6 +3,7 @@ package registry
 
 import (
 	"github.com/junioryono/godi/v4/zzverif/graphh"
+	"github.com/junioryono/godi/v4/zzverif/smoke"
 )
 
 var Harnesses = map[string]func(){
@@ -10,4 +11,5 @@ var Harnesses = map[string]func(){
 	"graphh.H_C05a_Immediate": graphh.H_C05a_Immediate,
 	"graphh.H_C06a_Topo":      graphh.H_C06a_Topo,
 	"graphh.H_C19":            graphh.H_C19,
+	"smoke.H_Smoke":           smoke.H_Smoke,
 }
